@@ -35,7 +35,7 @@ ASSUMPTIONS = [
     "the count clause is decided on calculators that cache through ASE's Calculator base class (all harness styles, EMT, LennardJones); Hamiltonian workloads are excluded from the count clause as the statement says",
     "pass A never queries the energy itself; it reads calc.results / calc.check_state and lets the package's Logger do the querying",
 ]
-REQUIRED = {"trials": 4000, "count_checks": 300, "cached_energy_checks": 2000, "reference_energy_checks": 3000, "intrusive_queries": 1000, "keyed_results_handed_out": 500, "peratom_trials": 300, "ase_calculator_trials": 300, "rejected": 800, "failed": 200}
+REQUIRED = {"force_queries": 300, "trials": 4000, "count_checks": 300, "cached_energy_checks": 2000, "reference_energy_checks": 3000, "intrusive_queries": 1000, "keyed_results_handed_out": 500, "peratom_trials": 300, "ase_calculator_trials": 300, "rejected": 800, "failed": 200}
 SHARD_TIMEOUT = {"quick": 900, "thorough": 3000}
 FAMILIES = ["canonical", "isobaric", "isotension", "grand", "grand", "hamiltonian", "canonical", "isobaric"]
 CALCS = [("soft", "plain"), ("soft", "keyed"), ("soft", "peratom"), ("emt", "ase"), ("lj", "ase"), ("soft", "keyed"), ("soft", "peratom"), ("emt", "ase")]
@@ -47,7 +47,8 @@ def plan(tier, seed):
         for calc in (("soft", "plain"), ("soft", "keyed"), ("soft", "peratom"), ("emt", "ase"), ("lj", "ase")):
             for ps in "AB":
                 combos.append((fam, calc, ps))
-    others = [("soft", "plain"), ("soft", "keyed"), ("soft", "peratom"), ("emt", "ase"), ("lj", "ase")]
+        combos.append((fam, ("soft", "ondemand"), "B"))
+    others = [("soft", "plain"), ("soft", "keyed"), ("soft", "peratom"), ("emt", "ase"), ("lj", "ase"), ("soft", "ondemand")]
     k = 0
     for fam in ("canonical", "isobaric", "isotension"):
         for calc in others:
@@ -56,6 +57,8 @@ def plan(tier, seed):
     for calc in (("soft", "plain"), ("soft", "keyed"), ("soft", "peratom")):
         combos.append(("hamiltonian", calc, "AB"[k % 2]))
         k += 1
+    for fam in ("canonical", "isobaric", "hamiltonian"):
+        combos.append((fam, ("soft", "ondemand"), "B"))
     if tier != "quick":
         combos = combos + [(f, c, "AB"[(i + 1) % 2]) for i, (f, c, _) in enumerate(combos)]
     return [{"name": f"{f}-{c[0]}-{c[1]}-{ps}{j}", "family": f, "calc": list(c), "pass": ps, "j": j, "seed": seed, "sims": 14 if tier == "quick" else 40, "steps": 25 if tier == "quick" else 70} for j, (f, c, ps) in enumerate(combos)]
@@ -107,6 +110,12 @@ def run_one(rec: Rec, spec, steps, family, kind, style, mode):
         a = atoms.copy()
         a.calc = factory()
         return float(a.get_potential_energy())
+
+    def fresh_forces(atoms):
+        a = atoms.copy()
+        a.set_constraint()
+        a.calc = factory()
+        return np.asarray(a.get_forces(apply_constraint=False), dtype=float)
 
     def viol(key, what, witness, crashed=False):
         # Known finding: a plain composite with two exchange moves acts on stale labels / indices.  Only what that
@@ -182,6 +191,14 @@ def run_one(rec: Rec, spec, steps, family, kind, style, mode):
                 raise
             if not abs(e - e_true) <= tol:
                 viol(f"C04/reported-energy-wrong/{v}", f"the simulation reports {e!r} for the current atoms, from scratch it is {e_true!r}", wit)
+            if style == "ondemand" and (t.k + t.step) % 2 == 0:
+                # other cached results too: forces asked for between trials (a logger field, an observer) must be those
+                # of the current configuration, whatever was computed, kept or restored before
+                rec.count("force_queries")
+                f = np.asarray(atoms.get_forces(apply_constraint=False), dtype=float)
+                f_true = fresh_forces(atoms)
+                if f.shape != f_true.shape or not np.allclose(f, f_true, rtol=1e-9, atol=1e-12):
+                    viol(f"C04/reported-forces-wrong/{v}", f"the forces reported for the current atoms differ from a from-scratch evaluation by up to {float(np.abs(f - f_true).max()) if f.shape == f_true.shape else 'shape'}", wit)
         if "E" in mshape and t.verdict is False:
             st["after_reverted_exchange"] = True
         mis = getattr(calc, "misattributed", None)
